@@ -203,16 +203,12 @@ def run(chk, repo):
                key=fi.qual + '::' + k, fn=fi.qual)
 
     # pairing of offsets and tolerance ranges
-    chk.rule('C17.e', 'tolerance tests pair start_offset with intron_start_range and end_offset with intron_end_range; CIRCexplorer3 thresholds all effective', 3)
-    for n in ast.walk(fi.node):
-        if isinstance(n, ast.Compare) and len(n.ops) == 1 and isinstance(n.ops[0], ast.In) and unparse(n.left) in ('start_offset', 'end_offset'):
-            want = 'intron_start_range' if unparse(n.left) == 'start_offset' else 'intron_end_range'
-            cmp_ = n.comparators[0]
-            from sa import sem as _sem
-            okp = unparse(cmp_) == want or (isinstance(cmp_, ast.Name) and want in _sem.defining_text(fi.node, cmp_.id)
-                                            and ('intron_start_range' if want == 'intron_end_range' else 'intron_end_range') not in _sem.defining_text(fi.node, cmp_.id))
-            chk.ob('C17.e', f"'{unparse(n)}' pairs offset and range of the same end", repo.loc(fi, n), okp,
-                   f"'{unparse(n)}' tests an offset against the tolerance of the other intron end", key=fi.qual + f"::pairing::{unparse(n.left)}::{n.lineno - fi.node.lineno > 60}", fn=fi.qual)
+    chk.rule('C17.e', 'tolerance tests pair start_offset with intron_start_range and end_offset with intron_end_range; CIRCexplorer3 thresholds all effective', 2)
+    # (the pairing of each offset with the tolerance window of its own intron end is decided by C17.d: the quantity tested against the window of
+    # `intron_start_range` must have the start form, the one tested against the window of `intron_end_range` the end form)
+    n_pair = sum(len(v_) for k_, v_ in offs.items() if k_[1] in (1, -1))
+    chk.ob('C17.e', f"{n_pair} tolerance tests, each pairing an offset with the window of the same intron end (forms checked by C17.d)", fi.where, n_pair >= 4,
+           f"only {n_pair} tolerance tests found on the strand branches", key=fi.qual + '::pairing', fn=fi.qual)
     v3 = repo.func('parser.CIRCexplorerParser:CIRCexplorer3KnownRecord.is_valid')
     chk.uses(v3)
     vcfg = CFG(v3.node)
@@ -299,7 +295,9 @@ def exon_scan(chk, repo, rid):
             if m and v:
                 strand = int(m.group(1))
         if strand is None:
-            continue
+            chk.undecided(rid, 'exon scans of find_exon_index', repo.loc(f, lp), 'a scan loop is not tied to one strand by the conditions on the way to it (merged / parametrised scan?)',
+                          key=f"{f.qual}::strands", fn=f.qual)
+            return
         seen.add(strand)
         sg = f"strand {strand:+d}"
         iv, ev = (e.id for e in lp.target.elts)
